@@ -1,9 +1,30 @@
 package props
 
-// SelfTest cross-checks the reference model and the monitors on hand-computed
-// cases before every run; a failure makes the check inconclusive.
+import (
+	_ "embed"
+	"encoding/json"
+	"fmt"
+	"math"
+
+	"gorgonia.org/tensor"
+
+	"verif/harness/gen"
+	"verif/harness/mon"
+	"verif/harness/ref"
+)
+
+// SelfTest cross-checks the reference model and the monitors before every run;
+// a failure makes the check inconclusive (never a pass, never a violation).
+//
+//  1. the reference model against selftest_vectors.json: ONNX documentation
+//     examples typed in by hand plus cases computed with numpy by
+//     tools/gen_selftest_vectors.py (independent of harness/ref);
+//  2. the tensor reader: the fast Data() path against coordinate access on
+//     contiguous tensors, views and transposed tensors; fingerprints detect a
+//     change of shape, strides and contents;
+//  3. every registered operator has a generator of valid requests.
 func SelfTest() error {
-	for _, f := range selfTests {
+	for _, f := range []func() error{selfTestVectors, selfTestReader, selfTestGenerators} {
 		if err := f(); err != nil {
 			return err
 		}
@@ -11,4 +32,226 @@ func SelfTest() error {
 	return nil
 }
 
-var selfTests []func() error
+//go:embed selftest_vectors.json
+var selfTestJSON []byte
+
+type stTensor struct {
+	DType string    `json:"dtype"`
+	Shape []int     `json:"shape"`
+	Data  []float64 `json:"data"`
+}
+
+type stCase struct {
+	Op      string         `json:"op"`
+	Inputs  []*stTensor    `json:"inputs"`
+	Attrs   map[string]any `json:"attrs"`
+	Outputs []*stTensor    `json:"outputs"`
+}
+
+func (t *stTensor) ref() *ref.T {
+	if t == nil {
+		return nil
+	}
+	dt := ref.F32
+	if t.DType == "int64" {
+		dt = ref.I64
+	}
+	return ref.FromF(dt, t.Shape, t.Data)
+}
+
+func attrIntOf(a map[string]any, k string, def int) int {
+	if v, ok := a[k]; ok {
+		return int(v.(float64))
+	}
+	return def
+}
+
+func attrIntsOf(a map[string]any, k string) []int {
+	v, ok := a[k]
+	if !ok {
+		return nil
+	}
+	var out []int
+	for _, x := range v.([]any) {
+		out = append(out, int(x.(float64)))
+	}
+	return out
+}
+
+func ints64(v []int) []int64 {
+	if v == nil {
+		return nil
+	}
+	o := make([]int64, len(v))
+	for i, x := range v {
+		o[i] = int64(x)
+	}
+	return o
+}
+
+func selfTestVectors() error {
+	var f struct {
+		Cases []stCase `json:"cases"`
+	}
+	if err := json.Unmarshal(selfTestJSON, &f); err != nil {
+		return fmt.Errorf("selftest vectors: %w", err)
+	}
+	if len(f.Cases) < 50 {
+		return fmt.Errorf("selftest vectors: only %d cases", len(f.Cases))
+	}
+	for i, cs := range f.Cases {
+		in := make([]*ref.T, 8)
+		for k, t := range cs.Inputs {
+			in[k] = t.ref()
+		}
+		var outs []*ref.T
+		var err error
+		one := func(a *ref.Approx, e error) {
+			err = e
+			if a != nil {
+				outs = []*ref.T{a.T}
+			}
+		}
+		oneT := func(t *ref.T, e error) {
+			err = e
+			outs = []*ref.T{t}
+		}
+		a := cs.Attrs
+		switch cs.Op {
+		case "Conv":
+			ap := ""
+			if s, ok := a["auto_pad"]; ok {
+				ap = s.(string)
+			}
+			one(ref.Conv(in[0], in[1], in[2], ref.ConvAttrs{AutoPad: ap, Pads: attrIntsOf(a, "pads"), Strides: attrIntsOf(a, "strides"), Dilations: attrIntsOf(a, "dilations")}))
+		case "MatMul":
+			one(ref.MatMul(in[0], in[1]))
+		case "Gemm":
+			one(ref.Gemm(in[0], in[1], in[2], a["alpha"].(float64), a["beta"].(float64), attrIntOf(a, "transA", 0) != 0, attrIntOf(a, "transB", 0) != 0))
+		case "Softmax", "LogSoftmax":
+			one(ref.Softmax(in[0], attrIntOf(a, "axis", -1), cs.Op == "LogSoftmax"))
+		case "Gather":
+			oneT(ref.Gather(in[0], in[1], attrIntOf(a, "axis", 0)))
+		case "ArgMax":
+			oneT(ref.ArgMax(in[0], attrIntOf(a, "axis", 0), attrIntOf(a, "keepdims", 1) != 0))
+		case "ReduceMax", "ReduceMin":
+			oneT(ref.ReduceMaxMin(in[0], ints64(attrIntsOf(a, "axes")), attrIntOf(a, "keepdims", 1) != 0, cs.Op == "ReduceMax"))
+		case "Transpose":
+			oneT(ref.Transpose(in[0], ints64(attrIntsOf(a, "perm"))))
+		case "Slice":
+			var ax, st []int64
+			if in[3] != nil {
+				ax = in[3].Ints()
+			}
+			if in[4] != nil {
+				st = in[4].Ints()
+			}
+			oneT(ref.Slice(in[0], in[1].Ints(), in[2].Ints(), ax, st))
+		case "Reshape":
+			oneT(ref.Reshape(in[0], in[1].Ints()))
+		case "Expand":
+			oneT(ref.Expand(in[0], in[1].Ints()))
+		case "Concat":
+			var ts []*ref.T
+			for _, t := range in {
+				if t != nil {
+					ts = append(ts, t)
+				}
+			}
+			oneT(ref.Concat(ts, attrIntOf(a, "axis", 0)))
+		case "RNN":
+			outs, err = ref.RNN(in[0], in[1], in[2], in[3], in[5], ref.RecAttrs{Hidden: attrIntOf(a, "hidden_size", 0)})
+		case "GRU":
+			outs, err = ref.GRU(in[0], in[1], in[2], in[3], in[5], ref.RecAttrs{Hidden: attrIntOf(a, "hidden_size", 0), LinearBeforeReset: attrIntOf(a, "linear_before_reset", 0) != 0})
+		case "LSTM":
+			outs, err = ref.LSTM(in[0], in[1], in[2], in[3], in[5], in[6], in[7], ref.RecAttrs{Hidden: attrIntOf(a, "hidden_size", 0)})
+		default:
+			return fmt.Errorf("selftest vectors: unknown op %s", cs.Op)
+		}
+		if err != nil {
+			return fmt.Errorf("selftest vector %d (%s): reference refused: %v", i, cs.Op, err)
+		}
+		if len(outs) != len(cs.Outputs) {
+			return fmt.Errorf("selftest vector %d (%s): %d outputs, expected %d", i, cs.Op, len(outs), len(cs.Outputs))
+		}
+		for k, w := range cs.Outputs {
+			g := outs[k]
+			if !ref.ShapeEq(g.Shape, w.Shape) {
+				return fmt.Errorf("selftest vector %d (%s) output %d: reference shape %v, expected %v", i, cs.Op, k, g.Shape, w.Shape)
+			}
+			for e, wv := range w.Data {
+				if d := math.Abs(g.F(e) - wv); d > 2e-5*(1+math.Abs(wv)) || d != d {
+					return fmt.Errorf("selftest vector %d (%s) output %d element %d: reference %v, expected %v", i, cs.Op, k, e, g.F(e), wv)
+				}
+			}
+		}
+	}
+	return nil
+}
+
+func selfTestReader() error {
+	r := gen.New(7)
+	for _, dt := range gen.AllDecodable {
+		v := r.Tensor(dt, []int{3, 4, 2}, gen.FillUnique, 0)
+		t := mon.ToTensor(v)
+		a, err1 := mon.FromTensor(t)
+		b, err2 := mon.FromTensorAt(t)
+		if err1 != nil || err2 != nil || mon.HashBits(a.Bits) != mon.HashBits(b.Bits) || mon.HashBits(a.Bits) != mon.HashBits(v.Bits) {
+			return fmt.Errorf("selftest reader: round trip of %v differs (%v %v)", dt, err1, err2)
+		}
+		// a sliced view and a transposed tensor must be read in logical order
+		view, err := t.Slice(nil, tensor.S(1, 3), nil)
+		if err != nil {
+			return err
+		}
+		got, err := mon.FromTensor(view)
+		if err != nil {
+			return fmt.Errorf("selftest reader: view: %v", err)
+		}
+		want, _ := ref.Slice(v, []int64{1}, []int64{3}, []int64{1}, nil)
+		if !ref.ShapeEq(got.Shape, want.Shape) || mon.HashBits(got.Bits) != mon.HashBits(want.Bits) {
+			return fmt.Errorf("selftest reader: sliced view of %v read as %v, expected %v", dt, got, want)
+		}
+		tr, err := tensor.Transpose(t, 2, 0, 1)
+		if err != nil {
+			return err
+		}
+		gotT, err := mon.FromTensor(tr)
+		wantT, _ := ref.Transpose(v, []int64{2, 0, 1})
+		if err != nil || mon.HashBits(gotT.Bits) != mon.HashBits(wantT.Bits) {
+			return fmt.Errorf("selftest reader: transposed %v differs (%v)", dt, err)
+		}
+		// fingerprints see shape and content changes
+		f0 := mon.Fp(t)
+		if err := t.Reshape(4, 6); err != nil {
+			return err
+		}
+		if ok, _ := f0.Equal(mon.Fp(t)); ok {
+			return fmt.Errorf("selftest reader: fingerprint blind to a reshape")
+		}
+		_ = t.Reshape(3, 4, 2)
+		if ok, what := f0.Equal(mon.Fp(t)); !ok {
+			return fmt.Errorf("selftest reader: fingerprint not restored: %s", what)
+		}
+	}
+	// scalars and zero-element tensors
+	s := mon.ToTensor(ref.FromF(ref.F32, []int{}, []float64{2.5}))
+	if v, err := mon.FromTensor(s); err != nil || v.Rank() != 0 || v.F(0) != 2.5 {
+		return fmt.Errorf("selftest reader: scalar read as %v (%v)", v, err)
+	}
+	z := mon.ToTensor(ref.New(ref.I64, 0))
+	if v, err := mon.FromTensor(z); err != nil || len(v.Bits) != 0 {
+		return fmt.Errorf("selftest reader: zero-element tensor: %v", err)
+	}
+	return nil
+}
+
+func selfTestGenerators() error {
+	r := gen.New(11)
+	for _, name := range c15Names {
+		if _, _, ok := SampleValidReq(r, name, true); !ok {
+			return fmt.Errorf("selftest generators: no valid request for operator %s", name)
+		}
+	}
+	return nil
+}
